@@ -115,6 +115,15 @@ def cmp_true_edge(body, bb):
     return (op, a, b, t, f)
 
 
+def eq_edges(body, bb):
+    """For a switch on `a == b` or `a != b`: (a, b, target when equal, target when different)."""
+    c = cmp_true_edge(body, bb)
+    if c is None or c[0] not in ("Eq", "Ne"):
+        return None
+    op, a, b, t, f = c
+    return (a, b, t, f) if op == "Eq" else (a, b, f, t)
+
+
 def natural_loop(body, header):
     """Blocks of the natural loop(s) with this header: header plus everything that can reach a back
     edge source without passing through the header."""
